@@ -52,11 +52,11 @@ theorem runW_good {s s' : St} {evs : List Ev} (h : Good s) (hw : GoodW s) (hr : 
 goes negative, no channel is closed twice -/
 theorem noCrash_step {s s' : St} {e : Ev} (h : Good s) (he : GoodE s) (hok : envOK s e = true)
     (hc : s.crashed = false) (hs : step s e = some s') : s'.crashed = false := by
-  obtain ⟨st, sEnter, sp, kEnter, kDecided, kWait, kClean, lp, pp, abortClosed, nbClosed, wg, writing, res, opens, crashed,
+  obtain ⟨st, sEnter, sp, kEnter, kDecided, kWait, kReady, kClean, lp, pp, abortClosed, nbClosed, wg, writing, res, opens, crashed,
     fuel, flag, rEnter, rSend, rWait, runOver, stopsDone, asm⟩ := s
-  obtain ⟨h1, h2, h3, h4, h5, h6, h7, h8, h9, h10, h11, h12, h13, h14, h15, h16, h17, h18⟩ := h
-  obtain ⟨e1, e2, e3, e4⟩ := he
-  dsimp only [stoppers] at h1 h2 h3 h4 h5 h6 h7 h8 h9 h10 h11 h12 h13 h14 h15 h16 h17 h18 e1 e2 e3 e4 hc
+  obtain ⟨h1, h2, h3, h4, h5, h6, h7, h8, h9, h10, h11, h12, h13, h14, h15, h16, h17, h18, h19⟩ := h
+  obtain ⟨e1, e2, e3, e4, e5⟩ := he
+  dsimp only [stoppers] at h1 h2 h3 h4 h5 h6 h7 h8 h9 h10 h11 h12 h13 h14 h15 h16 h17 h18 h19 e1 e2 e3 e4 e5 hc
   cases e <;> simp only [envOK, stoppers] at hok <;> lc_open hs
   all_goals try (have hser := e1 (by omega))
   all_goals ((try simp only [deactivate]) <;> (try split) <;>
@@ -107,10 +107,10 @@ theorem lc_inv_wg_nonneg (o : Bool) (s s' : St) (h : Reach o s)
     (hs : step s .loopDeactivate = some s' ∨ step s .starterDeactivate = some s') :
     s.wg = 1 ∧ s'.wg = 0 ∧ s'.crashed = false := by
   have hg := lc_inv o s h
-  obtain ⟨st, sEnter, sp, kEnter, kDecided, kWait, kClean, lp, pp, abortClosed, nbClosed, wg, writing, res, opens, crashed,
+  obtain ⟨st, sEnter, sp, kEnter, kDecided, kWait, kReady, kClean, lp, pp, abortClosed, nbClosed, wg, writing, res, opens, crashed,
     fuel, flag, rEnter, rSend, rWait, runOver, stopsDone, asm⟩ := s
-  obtain ⟨h1, h2, h3, h4, h5, h6, h7, h8, h9, h10, h11, h12, h13, h14, h15, h16, h17, h18⟩ := hg
-  dsimp only at h1 h2 h3 h4 h5 h6 h7 h8 h9 h10 h11 h12 h13 h14 h15 h16 h17 h18
+  obtain ⟨h1, h2, h3, h4, h5, h6, h7, h8, h9, h10, h11, h12, h13, h14, h15, h16, h17, h18, h19⟩ := hg
+  dsimp only at h1 h2 h3 h4 h5 h6 h7 h8 h9 h10 h11 h12 h13 h14 h15 h16 h17 h18 h19
   rcases hs with hs | hs <;> lc_open hs <;>
     simp_all [deactivate, LPc.alive, LPc.working, PPc.alive, SPc.inStarting, SPc.owner, SrcState.running]
 
@@ -119,7 +119,7 @@ closed through `closeIfOpen`, which cannot close twice by construction) -/
 theorem lc_inv_no_double_close (o : Bool) (s s' : St) (h : Reach o s) (hs : step s .abortSeen = some s') :
     s.nbClosed = false ∧ s'.crashed = false := by
   have hg := lc_inv o s h
-  obtain ⟨st, sEnter, sp, kEnter, kDecided, kWait, kClean, lp, pp, abortClosed, nbClosed, wg, writing, res, opens, crashed,
+  obtain ⟨st, sEnter, sp, kEnter, kDecided, kWait, kReady, kClean, lp, pp, abortClosed, nbClosed, wg, writing, res, opens, crashed,
     fuel, flag, rEnter, rSend, rWait, runOver, stopsDone, asm⟩ := s
   have h7 := hg.prod_alive
   dsimp only at h7
@@ -242,23 +242,65 @@ theorem C10_no_crash_counterexample : ¬ C10_no_crash_full := by
     simp [init] at hl)
   simp at this
 
-/-- full statement: a Stop caller only ever waits for a run that is ending -/
+/-- a Stop caller only ever waits for the run it stopped: for ALL interleavings (this was refuted by a
+counterexample before the repair d9d435f: the shared WaitGroup attached a delayed Stop to the next run) -/
 def C10_wait_own_run_full : Prop := ∀ o s, ReachW o s → s.kWait > 0 → s.st ≠ .active
 
-theorem C10_wait_own_run_partial (o : Bool) (s : St) (h : ReachE o s) (hk : s.kWait > 0) : s.st ≠ .active := by
-  have := (reachE_allGood h).goodE.wait_ending hk
-  rcases this with h | h <;> simp [h]
+/-- **C10_wait_own_run**: in every reachable state of every interleaving (no discipline E), a Stop caller that is
+still blocked on its run's done channel finds the source Stopping — the run it stopped is the one that is alive —
+never an Active run started after it. -/
+theorem C10_wait_own_run (o : Bool) (s : St) (h : Reach o s) (hk : s.kWait > 0) :
+    s.st = .stopping ∧ s.st ≠ .active := by
+  have := (lc_inv o s h).waiting_stopping hk
+  exact ⟨this, by simp [this]⟩
 
-/-- it is false: a Stop call parked between its lock section and `RunDoneWait` while the run ends and
-a new Start succeeds then waits on the NEW run (the wait group is reused) -/
-theorem C10_wait_own_run_counterexample : ¬ C10_wait_own_run_full := by
-  intro h
-  obtain ⟨s, hs, hp⟩ := exists_of_run (runW (init false) [.callStart, .startOk, .sampled, .chans, .prepared 0,
-      .activate, .runStarted, .loopStart, .callStop, .stopDecide, .stopSwitched, .abortSeen, .gotClosed, .loopDeactivate,
-      .callStart, .startOk, .sampled, .chans, .prepared 0, .activate])
-    (fun s => decide (s.kWait > 0 ∧ s.st = .active)) (by decide)
-  simp only [decide_eq_true_eq] at hp
-  exact h false s ⟨_, hs⟩ hp.1 hp.2
+theorem runW_run {a s : St} {es : List Ev} (hr : runW a es = some s) : run a es = some s := by
+  induction es generalizing a with
+  | nil => simpa [runW, run] using hr
+  | cons e es ih =>
+    simp only [runW] at hr
+    split at hr
+    · split at hr
+      · next s1 h1 => simp only [run, h1]; exact ih hr
+      · contradiction
+    · contradiction
+
+theorem reachW_reach {o : Bool} {s : St} (h : ReachW o s) : Reach o s := by
+  obtain ⟨evs, hr⟩ := h
+  exact ⟨evs, runW_run hr⟩
+
+theorem C10_wait_own_run_full_holds : C10_wait_own_run_full :=
+  fun o s h hk => (C10_wait_own_run o s (reachW_reach h) hk).2
+
+/-- when the run ends, every Stop caller that was stopping it is released, together -/
+theorem C10_deactivate_releases_waiters (s s' : St) (hs : step s .loopDeactivate = some s') (hc : s'.crashed = false) :
+    s'.kWait = 0 ∧ s'.kReady = s.kReady + s.kWait := by
+  unfold step at hs
+  split at hs
+  · contradiction
+  · dsimp only at hs
+    split at hs
+    · simp only [Option.some.injEq] at hs
+      subst hs
+      simp only [deactivate] at hc ⊢
+      split
+      · next hw => simp [hw] at hc
+      · exact ⟨rfl, rfl⟩
+    · contradiction
+
+/-- a released Stop caller returns from its wait whatever has happened since — also when a new Start has
+succeeded meanwhile and the source is Active again -/
+theorem C10_released_stop_returns (s : St) (hc : s.crashed = false) (hk : s.kReady > 0) :
+    ∃ s', step s .stopWaited = some s' ∧ s'.kReady = s.kReady - 1 ∧ s'.kClean = s.kClean + 1 ∧ s'.st = s.st := by
+  refine ⟨{ s with kReady := s.kReady - 1, kClean := s.kClean + 1 }, by simp [step, hc, hk], rfl, rfl, rfl⟩
+
+/-- the history that used to leave the first Stop waiting on the second run: now it is released by the end of
+ITS run and returns while the new run is Active -/
+example : ∃ s, runW (init false) [.callStart, .startOk, .sampled, .chans, .prepared 0, .activate, .runStarted,
+    .loopStart, .callStop, .stopDecide, .stopSwitched, .abortSeen, .gotClosed, .loopDeactivate,
+    .callStart, .startOk, .sampled, .chans, .prepared 0, .activate, .stopWaited] = some s ∧
+    (decide (s.kWait = 0 ∧ s.kReady = 0 ∧ s.kClean = 1 ∧ s.st = .active)) = true :=
+  exists_of_run _ _ (by decide)
 
 /-! ### Deadlock freedom -/
 
@@ -272,10 +314,10 @@ schedule), if some Start or Stop call has not returned then some non-environment
 theorem C10_no_stuck_state (o : Bool) (s : St) (h : ReachE o s) (hin : starters s > 0 ∨ stoppers s > 0) :
     ∃ e s', e.isEnv = false ∧ step s e = some s' := by
   have hall := reachE_allGood h
-  obtain ⟨st, sEnter, sp, kEnter, kDecided, kWait, kClean, lp, pp, abortClosed, nbClosed, wg, writing, res, opens, crashed,
+  obtain ⟨st, sEnter, sp, kEnter, kDecided, kWait, kReady, kClean, lp, pp, abortClosed, nbClosed, wg, writing, res, opens, crashed,
     fuel, flag, rEnter, rSend, rWait, runOver, stopsDone, asm⟩ := s
-  obtain ⟨⟨h1, h2, h3, h4, h5, h6, h7, h8, h9, h10, h11, h12, h13, h14, h15, h16, h17, h18⟩, ⟨e1, e2, e3, e4⟩, hw, hc⟩ := hall
-  dsimp only [stoppers, GoodW] at h1 h2 h3 h4 h5 h6 h7 h8 h9 h10 h11 h12 h13 h14 h15 h16 h17 h18 e1 e2 e3 e4 hw hc
+  obtain ⟨⟨h1, h2, h3, h4, h5, h6, h7, h8, h9, h10, h11, h12, h13, h14, h15, h16, h17, h18, h19⟩, ⟨e1, e2, e3, e4, e5⟩, hw, hc⟩ := hall
+  dsimp only [stoppers, GoodW] at h1 h2 h3 h4 h5 h6 h7 h8 h9 h10 h11 h12 h13 h14 h15 h16 h17 h18 h19 e1 e2 e3 e4 e5 hw hc
   subst hc
   simp only [starters, stoppers] at hin
   -- a Stop caller inside its lock section always completes it
@@ -303,10 +345,12 @@ theorem C10_no_stuck_state (o : Bool) (s : St) (h : ReachE o s) (hin : starters 
   have hsp : sp = .idle := by
     cases sp <;> simp_all
   subst hsp
-  have hk : kEnter + kWait + kClean > 0 := by
+  have hk : kEnter + kWait + kReady + kClean > 0 := by
     rcases hin with hin | hin
     · simp at hin; omega
     · omega
+  by_cases hkr : kReady > 0
+  · exact stuck_mk _ (.stopWaited) rfl (by simp [step, hkr])
   by_cases hkc : kClean > 0
   · exact stuck_mk _ (.stopCleaned) rfl (by simp [step, hkc])
   by_cases hke : kEnter > 0
@@ -316,17 +360,9 @@ theorem C10_no_stuck_state (o : Bool) (s : St) (h : ReachE o s) (hin : starters 
     | active => exact stuck_mk _ (.stopDecide) rfl (by simp [step, hke])
     | stopping => exact stuck_mk _ (.stopAlready) rfl (by simp [step, hke])
   have hkw : kWait > 0 := by omega
-  by_cases hwg : wg = 0
-  · exact stuck_mk _ (.stopWaited) rfl (by simp [step, hkw, hwg])
-  -- the run is still alive: the loop or the producer can move
-  have hrun : st.running := by
-    by_cases hr : st.running
-    · exact hr
-    · simp [hr] at h1; exact absurd h1 hwg
-  have hst : st = .stopping := by
-    rcases e2 hkw with h | h
-    · exact h
-    · simp [SrcState.running, h] at hrun
+  -- the run this caller stopped is still alive: the loop or the producer can move
+  have hst : st = .stopping := h18 hkw
+  have hrun : st.running := Or.inr hst
   have habort : abortClosed = true := h5 hst
   have hlp : lp ≠ .off := by
     have := h2.mp hrun
@@ -360,28 +396,36 @@ theorem C10_no_stuck_state (o : Bool) (s : St) (h : ReachE o s) (hin : starters 
     | send => exact stuck_mk _ (.gotBlock) rfl (by simp [step])
     | sendErr => exact stuck_mk _ (.gotError) rfl (by simp [step])
 
-/-- **C10_stop_waits_for_run**: a Stop caller that switched the state leaves its wait only when the run is over — wait
-group 0, hence no core loop and no Start call holding the activation — however long that takes: there is no step
-by which it gives up earlier.  (With `C10_no_stuck_state`/`C10_stop_measure` the wait does end.) -/
-theorem C10_stop_waits_for_run (o : Bool) (s s' : St) (h : Reach o s) (hs : step s .stopWaited = some s') :
-    s.wg = 0 ∧ s.lp = .off ∧ ¬ s.sp.owner ∧ ¬ s.st.running := by
-  have hg := lc_inv o s h
-  have hwg : s.wg = 0 := by
+/-- **C10_stop_waits_for_run**: a Stop caller that switched the state leaves its wait only after the run it stopped
+is over — it becomes ready only by a `RunDoneDeactivate` step, however long that takes: there is no step by which
+it gives up earlier.  Under E (no Start in between) the source is then Inactive with no core loop. -/
+theorem C10_stop_waits_for_run (s s' : St) (e : Ev) (hs : step s e = some s') (hr : s'.kReady > s.kReady) :
+    e = .loopDeactivate ∨ e = .starterDeactivate := by
+  obtain ⟨st, sEnter, sp, kEnter, kDecided, kWait, kReady, kClean, lp, pp, abortClosed, nbClosed, wg, writing, res, opens, crashed,
+    fuel, flag, rEnter, rSend, rWait, runOver, stopsDone, asm⟩ := s
+  cases e <;> (try (first | (left; rfl) | (right; rfl)))
+  all_goals (exfalso; lc_open hs)
+  all_goals (simp_all <;> omega)
+
+theorem C10_stop_waited_inactive (o : Bool) (s s' : St) (h : ReachE o s) (hs : step s .stopWaited = some s') :
+    s.st = .inactive ∧ s.lp = .off ∧ s.wg = 0 := by
+  have hall := reachE_allGood h
+  have hk : s.kReady > 0 := by
     unfold step at hs
     split at hs
     · contradiction
     · dsimp only at hs
       split at hs
-      · next hk => exact hk.2
+      · next hk => exact hk
       · contradiction
-  have hnr : ¬ s.st.running := by
-    intro hr
-    have := hg.wg_eq
-    simp [hr] at this
-    omega
-  have := (not_congr hg.run_owner).mp hnr
+  have hst := hall.goodE.ready_inactive hk
+  have hnr : ¬ s.st.running := by simp [SrcState.running, hst]
+  have hwg : s.wg = 0 := by
+    have := hall.good.wg_eq
+    simpa [hnr] using this
+  have := (not_congr hall.good.run_owner).mp hnr
   simp only [not_or, LPc.alive, ne_eq, Decidable.not_not] at this
-  exact ⟨hwg, this.1, by simpa [SPc.owner, not_or] using this.2, hnr⟩
+  exact ⟨hst, this.1, hwg⟩
 
 /-! ### Termination measure of the shut-down -/
 
@@ -400,7 +444,7 @@ def loopRank : LPc → Nat
 
 def measure (s : St) : Nat :=
   if s.crashed then 0 else
-  1 + 3 * (4 * s.fuel + prodRank s.pp) + loopRank s.lp + 4 * s.kEnter + 3 * s.kDecided + 2 * s.kWait + s.kClean
+  1 + 3 * (4 * s.fuel + prodRank s.pp) + loopRank s.lp + 5 * s.kEnter + 4 * s.kDecided + 3 * s.kWait + 2 * s.kReady + s.kClean
     + 6 * s.rEnter + 5 * s.rSend + s.rWait
 
 /-- no Start call in flight and the source is not Active: the situation from the moment the first Stop
@@ -414,11 +458,11 @@ blocks (`fuel` is arbitrary, chosen per run by the event `prepared fuel`). -/
 theorem C10_stop_measure (s s' : St) (e : Ev) (hg : Good s) (hw : GoodW s) (hsd : ShuttingDown s)
     (henv : e.isEnv = false) (hwf : e.wf = true) (hs : step s e = some s') :
     measure s' < measure s ∧ ShuttingDown s' := by
-  obtain ⟨st, sEnter, sp, kEnter, kDecided, kWait, kClean, lp, pp, abortClosed, nbClosed, wg, writing, res, opens, crashed,
+  obtain ⟨st, sEnter, sp, kEnter, kDecided, kWait, kReady, kClean, lp, pp, abortClosed, nbClosed, wg, writing, res, opens, crashed,
     fuel, flag, rEnter, rSend, rWait, runOver, stopsDone, asm⟩ := s
-  obtain ⟨h1, h2, h3, h4, h5, h6, h7, h8, h9, h10, h11, h12, h13, h14, h15, h16, h17, h18⟩ := hg
+  obtain ⟨h1, h2, h3, h4, h5, h6, h7, h8, h9, h10, h11, h12, h13, h14, h15, h16, h17, h18, h19⟩ := hg
   obtain ⟨hd1, hd2, hd3⟩ := hsd
-  dsimp only [GoodW] at h1 h2 h3 h4 h5 h6 h7 h8 h9 h10 h11 h12 h13 h14 h15 h16 h17 h18 hd1 hd2 hd3 hw
+  dsimp only [GoodW] at h1 h2 h3 h4 h5 h6 h7 h8 h9 h10 h11 h12 h13 h14 h15 h16 h17 h18 h19 hd1 hd2 hd3 hw
   subst hd1 hd2
   have habort : pp.alive → abortClosed = true := by
     intro hp
@@ -473,11 +517,11 @@ theorem C10_after_stops_inactive (o : Bool) (s : St) (h : ReachE o s) (hd : s.st
     s.st = .inactive ∧ starters s = 0 ∧ s.lp = .off ∧ ¬ s.pp.alive ∧ s.wg = 0 ∧ s.writing = false ∧
       s.res = false := by
   have hall := reachE_allGood h
-  obtain ⟨st, sEnter, sp, kEnter, kDecided, kWait, kClean, lp, pp, abortClosed, nbClosed, wg, writing, res, opens, crashed,
+  obtain ⟨st, sEnter, sp, kEnter, kDecided, kWait, kReady, kClean, lp, pp, abortClosed, nbClosed, wg, writing, res, opens, crashed,
     fuel, flag, rEnter, rSend, rWait, runOver, stopsDone, asm⟩ := s
-  obtain ⟨⟨h1, h2, h3, h4, h5, h6, h7, h8, h9, h10, h11, h12, h13, h14, h15, h16, h17, h18⟩, ⟨e1, e2, e3, e4⟩, hw, hc⟩ := hall
+  obtain ⟨⟨h1, h2, h3, h4, h5, h6, h7, h8, h9, h10, h11, h12, h13, h14, h15, h16, h17, h18, h19⟩, ⟨e1, e2, e3, e4, e5⟩, hw, hc⟩ := hall
   dsimp only [stoppers, starters, GoodW] at *
-  obtain ⟨q1, q2, q3⟩ := e4 hd
+  obtain ⟨q1, q2, q3⟩ := e5 hd
   subst q1 q2
   have hst : st = .inactive := by
     cases st with
@@ -540,9 +584,9 @@ theorem C10_restart (o : Bool) (s : St) (fuel : Nat) (h : Reach o s) (hc : s.cra
     ∃ s', run s (startSeq fuel) = some s' ∧ s'.st = .active ∧ s'.lp = .spawned ∧ s'.pp = .run ∧ s'.wg = 1 ∧
       s'.abortClosed = false ∧ s'.nbClosed = false ∧ s'.sp = .idle := by
   have hg := lc_inv o s h
-  obtain ⟨st, sEnter, sp, kEnter, kDecided, kWait, kClean, lp, pp, abortClosed, nbClosed, wg, writing, res, opens, crashed,
+  obtain ⟨st, sEnter, sp, kEnter, kDecided, kWait, kReady, kClean, lp, pp, abortClosed, nbClosed, wg, writing, res, opens, crashed,
     fuel0, flag, rEnter, rSend, rWait, runOver, stopsDone, asm⟩ := s
-  obtain ⟨h1, h2, h3, h4, h5, h6, h7, h8, h9, h10, h11, h12, h13, h14, h15, h16, h17, h18⟩ := hg
+  obtain ⟨h1, h2, h3, h4, h5, h6, h7, h8, h9, h10, h11, h12, h13, h14, h15, h16, h17, h18, h19⟩ := hg
   dsimp only at *
   subst hc hst hse
   have hwg : wg = 0 := by simpa [SrcState.running] using h1
@@ -561,10 +605,10 @@ theorem C10_failed_start_restartable (o : Bool) (s s' : St) (h : Reach o s) (hs 
     s'.st = .inactive ∧ s'.sp = .idle ∧ s'.lp = .off ∧ ¬ s'.pp.alive ∧ s'.wg = 0 ∧ s'.res = false ∧
       ∃ s'', run s' [.callStart, .startOk] = some s'' ∧ s''.sp = .starting := by
   have hg := lc_inv o s h
-  obtain ⟨st, sEnter, sp, kEnter, kDecided, kWait, kClean, lp, pp, abortClosed, nbClosed, wg, writing, res, opens, crashed,
+  obtain ⟨st, sEnter, sp, kEnter, kDecided, kWait, kReady, kClean, lp, pp, abortClosed, nbClosed, wg, writing, res, opens, crashed,
     fuel0, flag, rEnter, rSend, rWait, runOver, stopsDone, asm⟩ := s
-  obtain ⟨h1, h2, h3, h4, h5, h6, h7, h8, h9, h10, h11, h12, h13, h14, h15, h16, h17, h18⟩ := hg
-  dsimp only at h1 h2 h3 h4 h5 h6 h7 h8 h9 h10 h11 h12 h13 h14 h15 h16 h17 h18
+  obtain ⟨h1, h2, h3, h4, h5, h6, h7, h8, h9, h10, h11, h12, h13, h14, h15, h16, h17, h18, h19⟩ := hg
+  dsimp only at h1 h2 h3 h4 h5 h6 h7 h8 h9 h10 h11 h12 h13 h14 h15 h16 h17 h18 h19
   lc_open hs
   simp_all [SPc.inStarting, SPc.owner, LPc.alive, LPc.working, PPc.alive, SrcState.running, run, step]
   grind
@@ -581,10 +625,10 @@ theorem C10_failed_startrun_restartable (o : Bool) (s s' : St) (h : Reach o s)
       s'.res = false ∧ s'.crashed = false ∧
       ∃ s'', run s' [.callStart, .startOk] = some s'' ∧ s''.sp = .starting := by
   have hg := lc_inv o s h
-  obtain ⟨st, sEnter, sp, kEnter, kDecided, kWait, kClean, lp, pp, abortClosed, nbClosed, wg, writing, res, opens, crashed,
+  obtain ⟨st, sEnter, sp, kEnter, kDecided, kWait, kReady, kClean, lp, pp, abortClosed, nbClosed, wg, writing, res, opens, crashed,
     fuel0, flag, rEnter, rSend, rWait, runOver, stopsDone, asm⟩ := s
-  obtain ⟨h1, h2, h3, h4, h5, h6, h7, h8, h9, h10, h11, h12, h13, h14, h15, h16, h17, h18⟩ := hg
-  dsimp only at h1 h2 h3 h4 h5 h6 h7 h8 h9 h10 h11 h12 h13 h14 h15 h16 h17 h18
+  obtain ⟨h1, h2, h3, h4, h5, h6, h7, h8, h9, h10, h11, h12, h13, h14, h15, h16, h17, h18, h19⟩ := hg
+  dsimp only at h1 h2 h3 h4 h5 h6 h7 h8 h9 h10 h11 h12 h13 h14 h15 h16 h17 h18 h19
   lc_open hs
   all_goals simp only [deactivate]
   all_goals split
